@@ -20,7 +20,10 @@ type c08Params struct {
 	Interval, Timeout int
 }
 
-var c08Events = []string{"req-ok", "req-500", "req-refused", "req-abort(panic)", "clock+0.4*interval", "clock+1.1*interval", "clock+1.1*timeout"}
+// start-held / finish-held-*: a request is kept in flight at the backend while other requests
+// run and the clock moves, and ends (well or badly) in whatever state the breaker is in by then
+var c08Events = []string{"req-ok", "req-500", "req-refused", "req-abort(panic)", "clock+0.4*interval", "clock+1.1*interval", "clock+1.1*timeout",
+	"start-held", "finish-held-ok", "finish-held-500"}
 
 type c08Inst struct {
 	s    *vrt.Sched
@@ -28,6 +31,10 @@ type c08Inst struct {
 	p    c08Params
 	out  string
 	maxD time.Duration
+	held *held
+	// openedAt is the instant the breaker was last seen to open (it was not open before the
+	// step, or an admitted request of the step reached the backend, and it is open after it)
+	openedAt time.Duration
 }
 
 func (in *c08Inst) LastOutcome() string { return in.out }
@@ -53,20 +60,73 @@ func (in *c08Inst) Step(ev int) *vh.HViol {
 		in.s.AdvanceQuiet(time.Duration(1.1 * float64(in.p.Timeout) * float64(time.Second)))
 		return nil
 	}
-	res := in.k.request("10.0.0.1", nil)
-	in.out = fmt.Sprintf("%d/%v", res.Status, res.Aborted)
+	wasOpen := in.k.lb.circuitBreaker.State() == circuitbreaker.StateOpen
+	hits := st.hits
+	switch ev {
+	case 7:
+		h := in.k.startHeld("10.0.0.2")
+		if h.done || h.at == nil {
+			in.out = fmt.Sprintf("not-held:%d", h.res.Status)
+		} else {
+			in.held = h
+			in.out = "held"
+		}
+	case 8, 9:
+		st.mode = map[int]string{8: "ok", 9: "500"}[ev]
+		h := in.held
+		in.held = nil
+		in.k.release(h.at)
+		if !h.done {
+			return &vh.HViol{Key: "C08/held-request-never-returned", What: "a request released at its backend never returned"}
+		}
+		in.out = fmt.Sprintf("held-finished:%d", h.res.Status)
+	default:
+		res := in.k.request("10.0.0.1", nil)
+		in.out = fmt.Sprintf("%d/%v", res.Status, res.Aborted)
+	}
+	if in.k.lb.circuitBreaker.State() == circuitbreaker.StateOpen && (!wasOpen || (ev < 7 && st.hits != hits)) {
+		in.openedAt = in.s.Clock()
+	}
 	return nil
 }
 
 func (in *c08Inst) Fingerprint() string {
-	return vh.FingerprintClip(in.maxD, in.k.lb.circuitBreaker) + in.k.novel()
+	since := in.s.Clock() - in.openedAt
+	if since > in.maxD {
+		since = in.maxD
+	}
+	return vh.FingerprintClip(in.maxD, in.k.lb.circuitBreaker) + in.k.novel() + fmt.Sprintf("|held=%v|opened-%v-ago", in.held != nil, since)
 }
 
 // Probe is the recovery script: backends are healthy again; wait out the timeout; then a
 // bounded number of requests must bring the breaker to closed with requests admitted.
+//
+// "At most timeout": when the breaker is open, the wait is only what is left of the timeout
+// counted from the instant it opened - nothing that happens while it is open (rejected
+// requests, the late end of a request admitted before it opened) may push the first trial out.
 func (in *c08Inst) Probe() *vh.HViol {
 	in.k.stubs[0].mode = "ok"
-	in.s.AdvanceQuiet(time.Duration(1.1 * float64(in.p.Timeout) * float64(time.Second)))
+	if in.held != nil { // requests succeed again: so does the one still in flight
+		h := in.held
+		in.held = nil
+		wasOpen := in.k.lb.circuitBreaker.State() == circuitbreaker.StateOpen
+		in.k.release(h.at)
+		if !h.done {
+			return &vh.HViol{Key: "C08/held-request-never-returned", What: "a request released at its backend never returned"}
+		}
+		if !wasOpen && in.k.lb.circuitBreaker.State() == circuitbreaker.StateOpen {
+			in.openedAt = in.s.Clock()
+		}
+	}
+	wait := time.Duration(1.1 * float64(in.p.Timeout) * float64(time.Second))
+	if in.k.lb.circuitBreaker.State() == circuitbreaker.StateOpen {
+		if left := in.openedAt + time.Duration(in.p.Timeout)*time.Second + time.Millisecond - in.s.Clock(); left < wait {
+			wait = left
+		}
+	}
+	if wait > 0 {
+		in.s.AdvanceQuiet(wait)
+	}
 	budget := in.p.ST + in.p.MR + 2
 	cfg := fmt.Sprintf("failure_threshold=%d success_threshold=%d max_requests=%d interval=%ds timeout=%ds", in.p.FT, in.p.ST, in.p.MR, in.p.Interval, in.p.Timeout)
 	var seq []int
@@ -102,6 +162,19 @@ func c08Spec(p c08Params, depth int) vh.HSpec {
 				return &c08Rejected{}
 			}
 			return &c08Inst{s: s, k: newKitCfg(s, cfg), p: p, maxD: maxD}
+		},
+		Enabled: func(inst vh.HInstance, ev int) bool {
+			in, ok := inst.(*c08Inst)
+			if !ok {
+				return true
+			}
+			switch ev {
+			case 7:
+				return in.held == nil
+			case 8, 9:
+				return in.held != nil
+			}
+			return true
 		},
 	}
 }
